@@ -351,7 +351,10 @@ def _run_real(ctx, case, op, n, params, cols, inputs, shape):
     the whole (not yet evaluated) program is deep-copied, the stand-ins of the copy are replaced by other fields, and the copy
     is evaluated: it computes from its own fields."""
     import copy
-    prog = arr.new_program()
+    import os
+    write = not case.get("in_copy") and n >= 2 and case["rseed"] % 2 == 0
+    d = ctx.scratch() if write else None
+    prog = arr.new_program(arr.NC_LIBS if write else arr.CSV_LIBS, working_dir=d)
     ctx.count("real_producer_cases")
     for k, a in enumerate(inputs):
         arr.standin(prog, "S%d" % k, -a, fuzzy=True)
@@ -385,6 +388,28 @@ def _run_real(ctx, case, op, n, params, cols, inputs, shape):
         if bad:
             ctx.fail("%s:%s:%s" % (op, bad[0], tag), {"cell": bad[1], "got": bad[2], "want": bad[3], "params": params})
             return
+        if write and target is prog:
+            # the result is written to a NetCDF file next to one of its inputs (listed after it), and used again afterwards:
+            # Not(result) is the negation of what the operator computed
+            from netCDF4 import Dataset
+            tpath = os.path.join(d, "grid.nc")
+            with Dataset(tpath, "w") as ds:
+                ds.createDimension("c", len(cols[0]))
+                cv = ds.createVariable("c", "f8", ("c",))
+                cv[:] = numpy.arange(len(cols[0])) * 1.0
+                tv = ds.createVariable("tmpl", "f8", ("c",))
+                tv[:] = numpy.zeros(len(cols[0]))
+            rs_ = numpy.random.RandomState(case["rseed"] % (2 ** 31))
+            arr.standin(prog, "Extra", numpy.ma.array(numpy.round(rs_.uniform(-1, 1, size=len(cols[0])) * 8) / 8.0, mask=rs_.uniform(size=len(cols[0])) < 0.3), fuzzy=True)     # missing elsewhere
+            w = arr.invoke(prog, "EEMSWrite", "W", {"OutFileName": os.path.join(d, "o.nc"), "OutFieldNames": ["Res", "Extra"], "DimensionFileName": tpath, "DimensionFieldName": "tmpl"})
+            neg = arr.invoke(prog, "FuzzyNot", "NotRes", {"InFieldName": "Res"})
+            ctx.count("law_checks")
+            if w.ok and neg.ok:
+                nwant = [None if v is None else -v for v in want]
+                bad = ref.compare(neg.value, nwant, scale=scale, rel=1e-12)
+                if bad:
+                    ctx.fail("%s:%s:result-used-again-after-it-was-written-to-a-file" % (op, bad[0]), {"cell": bad[1], "got": bad[2], "want": bad[3], "params": params})
+                    return
 
 
 def _reevaluate(ctx, op, inputs, oparams, refs, first, rk):
